@@ -164,9 +164,9 @@ func genC34Plan(seed int64, leg string, idx int) *c34Plan {
 var c34Blocked int
 
 func runC34(c *core.Ctx) {
-	total := c.Pick(320, 3000)
+	total := c.Pick(320, 9000)
 	if c.Leg == "race" {
-		total = c.Pick(112, 1000)
+		total = c.Pick(112, 3000)
 	}
 	cells := map[string]cell{}
 	for _, cl := range serverCells() {
